@@ -19,6 +19,7 @@ CONSTANTS
  Goals = {3}
  Origins = {o}
  AdvKinds = {}
+ AdvSrcs = {adv}
  TrackWire = FALSE
  UseIds = FALSE
  NodeTeardown = FALSE
